@@ -11,7 +11,7 @@ from vfacts import strip, walk, method_name, known_facts, is_node
 from .prov import var_table
 
 RULE = 'MEMO'
-FLOOR = 8
+FLOOR = 4
 ANCHORS = ['ExplicitFAInclusionFunctorCache::AddNewPairToAntichain', 'ExplicitFAInclusionFunctorCache::AddToNext']
 TABLES = {'subsetMap_': '+', 'subsetNotMap_': '-'}
 
